@@ -53,6 +53,15 @@ func setRuleInForce(cb CircuitBreaker, rule *Rule) {
 	}
 	rulesInForceMux.Lock()
 	defer rulesInForceMux.Unlock()
+	if pendingRulesInForce != nil {
+		// a load is being built: recorded, and applied when its result is published
+		pendingRulesInForce.set = append(pendingRulesInForce.set, ruleInForceEntry{cb, rule})
+		return
+	}
+	applyRuleInForce(cb, rule)
+}
+
+func applyRuleInForce(cb CircuitBreaker, rule *Rule) {
 	if rule == cb.BoundRule() {
 		delete(rulesInForce, cb)
 	} else {
@@ -60,26 +69,68 @@ func setRuleInForce(cb CircuitBreaker, rule *Rule) {
 	}
 }
 
+type ruleInForceEntry struct {
+	key  CircuitBreaker
+	rule *Rule
+}
+
+// ruleInForceEdits are the changes to the table that a load makes while it is being built. They take effect
+// when the load publishes its result and are dropped when it is abandoned (a generator that panics): a load
+// that fails changes nothing, also not what the rules still in force are reported and matched as.
+type ruleInForceEdits struct {
+	set    []ruleInForceEntry
+	forget []CircuitBreaker
+}
+
+// pendingRulesInForce is set for the duration of a load (loads are serialised by the rule manager's update
+// lock); guarded by rulesInForceMux.
+var pendingRulesInForce *ruleInForceEdits
+
+func beginRuleInForceEdits() {
+	rulesInForceMux.Lock()
+	defer rulesInForceMux.Unlock()
+	pendingRulesInForce = &ruleInForceEdits{}
+}
+
+// endRuleInForceEdits applies (commit) or drops the edits recorded since beginRuleInForceEdits.
+func endRuleInForceEdits(commit bool) {
+	rulesInForceMux.Lock()
+	defer rulesInForceMux.Unlock()
+	edits := pendingRulesInForce
+	pendingRulesInForce = nil
+	if edits == nil || !commit {
+		return
+	}
+	for _, k := range edits.forget {
+		delete(rulesInForce, k)
+	}
+	for _, e := range edits.set {
+		applyRuleInForce(e.key, e.rule)
+	}
+}
+
 // forgetRulesInForce drops the entries of breakers that are no longer in use.
 func forgetRulesInForce(cbs []CircuitBreaker, except []CircuitBreaker) {
 	rulesInForceMux.Lock()
 	defer rulesInForceMux.Unlock()
-	if len(rulesInForce) == 0 {
-		return
-	}
-	for _, cb := range cbs {
-		if !keyable(cb) {
+	for _, x := range cbs {
+		if !keyable(x) {
 			continue
 		}
 		kept := false
 		for _, e := range except {
-			if e == cb {
+			if e == x {
 				kept = true
 				break
 			}
 		}
-		if !kept {
-			delete(rulesInForce, cb)
+		if kept {
+			continue
+		}
+		if pendingRulesInForce != nil {
+			pendingRulesInForce.forget = append(pendingRulesInForce.forget, x)
+		} else {
+			delete(rulesInForce, x)
 		}
 	}
 }
